@@ -476,3 +476,41 @@ def c12_14(ctx: Ctx):
     ctx.check(ok, rt, calls[0] if calls else rt.node, "the target of a direct transfer is its (only) fixup, converted as a branch operand",
               f"called as `{src(calls[0])[:80] if calls else '?'}`: the edge target is computed from another fixup or without the branch flag (no PLT inference for the target symbol)",
               key="_resolve_instruction_target::fixup0-as-branch")
+
+
+@rule("C19.7", ["C19"], "delete_symbol is unforced unless the caller says otherwise", 1)
+def c19_7(ctx: Ctx):
+    fi = ctx.repo.func("rewriting.RewritingContext.delete_symbol")
+    kw = {a.arg: d for a, d in zip(fi.node.args.kwonlyargs, fi.node.args.kw_defaults)}
+    pos = dict(zip([a.arg for a in fi.node.args.args][-len(fi.node.args.defaults):], fi.node.args.defaults)) if fi.node.args.defaults else {}
+    d = kw.get("force", pos.get("force"))
+    ctx.check(isinstance(d, ast.Constant) and d.value is False, fi, fi.node, "`force` defaults to False",
+              f"`force` defaults to {src(d) if d is not None else 'nothing'}: a plain delete_symbol(sym) silently drops the expressions that still use the symbol instead of failing with SymbolUsesRemainingError",
+              key="delete_symbol::force-default")
+
+
+@rule("C08.10", ["C08", "C09"], "the CFI procedure tracker scans every block and every directive (no early exit)", 3)
+def c08_10(ctx: Ctx):
+    fi = ctx.repo.func("rewriting._CFIProcedureTracker.__init__")
+    loops = [n for n in walk_no_nested(fi.node) if isinstance(n, ast.For)]
+    if len(loops) < 3:
+        raise AnalysisError("_CFIProcedureTracker.__init__: scan loops not found")
+    for lp in loops:
+        own_breaks = [x for st in lp.body for x in walk_no_nested(st) if isinstance(x, (ast.Break, ast.Return))
+                      and not any(isinstance(inner, ast.For) and inner is not lp and any(x is y for y in ast.walk(inner)) for st2 in lp.body for inner in ast.walk(st2))]
+        ctx.check(not own_breaks, fi, own_breaks[0] if own_breaks else lp, f"`for … in {src(lp.iter)[:40]}` runs to the end",
+                  f"`{src(own_breaks[0]) if own_breaks else ''}` leaves the scan at the first data block / block without directives: procedures that start after it are unknown to the tracker, "
+                  "so CFI directives of patches inserted there are thrown away as 'outside any procedure'",
+                  key=f"_CFIProcedureTracker::scan::{src(lp.iter)[:30]}")
+
+
+@rule("C12.15", ["C12", "C01", "C03"], "a patch result always ends in a code block without outgoing edges (so that what follows can be stitched on)", 1)
+def c12_15(ctx: Ctx):
+    fi = ctx.repo.func("rewriting.RewritingContext._invoke_patch")
+    v = single_assign_value(fi.node, "needs_additional_block")
+    lin = linear(fi.node)
+    ok = v is not None and _equiv(lin, v, "not isinstance(last_block, gtirb.CodeBlock) or any(result.cfg.out_edges(last_block))")
+    ctx.check(ok, fi, v or fi.node, "an empty code block is appended when the last block is data or has outgoing edges",
+              f"needs_additional_block = `{src(v)[:100] if v else '?'}`: a patch ending in data or in a jump/call/return is handed to insert() with a last block that cannot take the fallthrough "
+              "to the rest of the original block (insert() asserts, or the terminator gains a fallthrough)",
+              key="_invoke_patch::needs-additional-block")
